@@ -159,6 +159,9 @@ bool Action::stop() {
   if (timer_ev_ != nullptr)
     timer_ev_->disable();
 
+  //! 撤回已派发但尚未执行的 block 通知，停止后的动作不应再上报
+  cancelDispatchedCallback();
+
   is_base_func_invoked_ = false;
 
   onStop();
